@@ -1974,7 +1974,7 @@ OPEN: `doc_inline_ranges`, `doc_text_faithful` — the complete property `Ranges
         (b) `heading`: the one-entry table `[(0, first_nonspace + text_pos)]`, with
             `text_max ≤ |line|` from `atxTextMax`.
    2. `Inline.inline_children_ordered` needs `MapOK` = `WFMap ∧ MonoMap ∧ KeysAfterLF`; `MonoMap` fails
-      exactly for a split tab (`C05.translate_not_mono_inside_virtual`), hence `hmono`; and it yields
+      exactly for a split tab (`C05.exMap`, `C05.translateRaw_not_mono_inside_virtual`), hence `hmono`; and it yields
       `posEnd` without the bound `posEnd ≤ (trimSrc content).2` — wanted: `st.pos ≤ st.posMax` at the
       exit of `Inline.tokenize` (from `Inline.tokenize_progress`: `pos + len ≤ posMax`).
    3. the splice walk on the full tree: `spliceList` maps `OrderedB PMap lo hi cs` to
